@@ -92,14 +92,19 @@ class HfpProtocol:
 
         logger.debug(f'<<< Data received: {data}')
 
-        # Drop incoming data if it would overflow the buffer; keep existing
-        # partial packet state intact so a future clean packet can still parse.
+        # A line that would overflow the buffer is dropped as a whole: what has been
+        # accumulated of it is discarded, and so is the incoming data up to the end of
+        # that line, so that the lines that follow can still be parsed.
         if len(self.buffer) + len(data) > self.MAX_BUFFER_SIZE:
             logger.warning(
-                'HFP buffer overflow (>%d bytes), dropping incoming data',
+                'HFP buffer overflow (>%d bytes), dropping the current line',
                 self.MAX_BUFFER_SIZE,
             )
-            return
+            self.buffer = ''
+            separator = data.find('\r')
+            if separator < 0 or len(data) - separator - 1 > self.MAX_BUFFER_SIZE:
+                return
+            data = data[separator + 1 :]
 
         # Add to the buffer and look for lines
         self.buffer += data
